@@ -50,6 +50,14 @@ def cells(tier):
     return out
 
 
+def _earlier_lookup(pd, V, vendor):
+    """an earlier round in the same process that sampled a phantom card (a lookup must not depend on earlier lookups)"""
+    df0 = frame(pd, vendor, [1, 1])
+    df0[df0.columns[3]] = df0[df0.columns[3]].astype(int)
+    df0["cum_cards"] = df0[df0.columns[3]].cumsum()
+    V.sample_from_manifest(df0, [2] if vendor == "Dominion" else [1])
+
+
 def frame(pd, vendor, sizes, index="default", phantom_last=True):
     k = len(sizes)
     tabs = [f"T{i}" for i in range(k)]
@@ -137,6 +145,7 @@ def _lookup(cell, stats):
         df["cum_cards"] = pd.Series([SV(c) for c in cum], dtype=object, index=df.index)
         inputs = lambda m: dict(sizes=[model_value(m, s) for s in sz], sample=[model_value(m, s1), model_value(m, s2)])
         try:
+            _earlier_lookup(pd, V, cell["vendor"])
             cards, order, mvr_ph = V.sample_from_manifest(FrameProxy(df), [SV(s1), SV(s2)])
         except core.PathAbort:
             raise
@@ -324,6 +333,7 @@ def replay(f):
     df["cum_cards"] = df[df.columns[3]].cumsum()
     k = len(sizes)
     try:
+        _earlier_lookup(pd, V, cell["vendor"])
         cards, order, mph = V.sample_from_manifest(df, sample)
     except Exception as e:      # noqa
         return dict(reproduced=True, detail=f"raised {e!r}")
